@@ -1,7 +1,274 @@
 import BarterModel.Lemmas.Position
+/-!
+# C02 — Position size and realised PnL conserve the cash flows of the fills
+
+Statements only (proofs go through `Lemmas/Position.lean`). Everything is about the executable
+model `Model/Position.lean` that `Driver/C02.lean` runs:
+
+* `runFills fs` — the `PositionManager` after the fills `fs` from the empty manager, together with
+  every `PositionExited` it returned (`.exits`, oldest first);
+* `(runFills fs).pm.update f` — the next call of `PositionManager::update_from_trade`: new manager
+  and returned `Option PositionExited`.
+
+and relates it to the abstract spec written from the property text: `net fs` (Σ ±q), `cash fs`
+(Σ sell p·q − Σ buy p·q − Σ fee), `feeSum fs`, `ReachesOrCrossesZero`, `Crosses`, `life fs`.
+
+Hypotheses, the same two for every history theorem, for *all* finite fill lists (no bound):
+`OneInstrument i fs` (one instrument) and `PosQty fs` (every quantity `> 0`). The property's
+`price > 0` and `fee ≥ 0` are not needed by any proof and therefore not assumed (the theorems also
+cover rebates). Arithmetic is exact over ℚ: this is the "up to decimal rounding" statement.
+-/
 namespace BarterModel.Props.C02
 open BarterModel.Position
 
-theorem flat_start : (runFills []).pm.current = none := rfl
+/-- The state after `fs ++ [f]` is the state after `fs` updated by `f`, and the exits list grows by
+exactly the record that update returned (ties `Run.exits` to the return values). -/
+theorem runFills_snoc (fs : List Trade) (f : Trade) :
+    (runFills (fs ++ [f])).pm = ((runFills fs).pm.update f).1 ∧
+    (runFills (fs ++ [f])).exits = (runFills fs).exits ++ ((runFills fs).pm.update f).2.toList := by
+  simp [runFills, Run.run, List.foldl_append, Run.step]
+
+/-- (1) `size_is_net`: after any fill history the open position's signed quantity (0 when flat)
+is the net signed filled quantity, its side is the sign of the net, there is no position exactly
+when the net is zero, and `quantity_abs = |net|`. -/
+theorem size_is_net {i : Nat} (fs : List Trade) (h1 : OneInstrument i fs) (h2 : PosQty fs) :
+    (runFills fs).pm.signedQty = net fs ∧
+    (runFills fs).pm.side = sideOfNet (net fs) ∧
+    ((runFills fs).pm.current = none ↔ net fs = 0) ∧
+    (∀ p, (runFills fs).pm.current = some p → p.quantityAbs = abs (net fs) ∧ p.instrument = i) := by
+  have h := inv_runFills fs h1 h2
+  have hs := h.signed
+  refine ⟨hs, ?_, ?_, ?_⟩
+  · rw [← hs]; exact pm_side_of_signed h.wf
+  · rw [← hs, pm_signed_eq]
+    cases hc : (runFills fs).pm.current with
+    | none => simp [optSigned]
+    | some p => simpa [optSigned] using signed_ne_zero (h.wf p hc)
+  · intro p hc
+    rw [← hs, pm_signed_eq, hc]
+    exact ⟨(signed_abs (h.wf p hc)).symm, (h.wf p hc).instr⟩
+
+/-- (2) `exit_iff_cross`: the fill `f` after the history `fs` makes
+`PositionManager::update_from_trade` return a `PositionExited` exactly when the net quantity was
+non-zero before `f` and is zero or of the opposite sign after it. -/
+theorem exit_iff_cross {i : Nat} (fs : List Trade) (f : Trade) (h1 : OneInstrument i (fs ++ [f]))
+    (h2 : PosQty (fs ++ [f])) :
+    ((runFills fs).pm.update f).2.isSome ↔ ReachesOrCrossesZero (net fs) (net (fs ++ [f])) := by
+  have h := inv_runFills fs (fun x hx => h1 x (by simp [hx])) (fun x hx => h2 x (by simp [hx]))
+  have := pm_update_exit_iff h.wf (h1 f (by simp)) (h2 f (by simp))
+  rw [← pm_signed_eq, h.signed] at this
+  simpa [net, sum_append_rat, Rat.add_zero] using this
+
+/-- (2a) whole-history form: the number of closed-position records returned over the history is
+the number of fills at which the net quantity reached or crossed zero. -/
+theorem exits_count {i : Nat} (fs : List Trade) (h1 : OneInstrument i fs) (h2 : PosQty fs) :
+    (runFills fs).exits.length = zeroTouches 0 fs := by
+  simpa [runFills, Run.init] using run_exits_length fs h1 h2 (inv_init i)
+
+/-- (2b) a *crossing* fill closes the open position, charging it the share `fee·(closed/q)` as exit
+fee, and opens the opposite position (the fill's side) with the remainder `|net after|`, entry
+price = fill price, entry fee `fee·(remainder/q)` (so realised PnL `−` that), and only this fill's
+id. -/
+theorem crossing_fill_splits {i : Nat} (fs : List Trade) (f : Trade)
+    (h1 : OneInstrument i (fs ++ [f])) (h2 : PosQty (fs ++ [f]))
+    (hx : Crosses (net fs) (net (fs ++ [f]))) :
+    ∃ p p' e, (runFills fs).pm.current = some p ∧
+      (runFills fs).pm.update f = ({ current := some p' }, some e) ∧
+      p'.side = f.side ∧ p'.instrument = i ∧
+      p'.quantityAbs = abs (net (fs ++ [f])) ∧
+      p'.quantityAbsMax = abs (net (fs ++ [f])) ∧
+      p'.priceEntryAverage = f.price ∧
+      p'.feesEnter = f.fees * (abs (net (fs ++ [f])) / f.quantity) ∧
+      p'.feesExit = 0 ∧
+      p'.pnlRealised = -(f.fees * (abs (net (fs ++ [f])) / f.quantity)) ∧
+      p'.trades = [f.id] ∧ p'.timeEnter = f.time ∧
+      e.feesEnter = p.feesEnter ∧
+      e.feesExit = p.feesExit + f.fees * (abs (net fs) / f.quantity) := by
+  have h := inv_runFills fs (fun x hx => h1 x (by simp [hx])) (fun x hx => h2 x (by simp [hx]))
+  have hn : net (fs ++ [f]) = net fs + signedQty f := by simp [net, Rat.add_zero]
+  have hs := h.signed
+  rw [pm_signed_eq] at hs
+  cases hc : (runFills fs).pm.current with
+  | none =>
+    exfalso; rw [hc] at hs; simp only [optSigned] at hs
+    rw [← hs] at hx; unfold Crosses at hx; grind
+  | some p =>
+    rw [hc] at hs; simp only [optSigned] at hs
+    rw [hn, ← hs] at hx ⊢
+    obtain ⟨p', e, hu, rest⟩ := update_cross (h.wf p hc) (h1 f (by simp)) (h2 f (by simp)) hx
+    refine ⟨p, p', e, rfl, ?_, rest⟩
+    simp [PositionManager.update, hc, hu]
+
+/-- (2c) a fill that takes the net quantity exactly to zero leaves no position and charges its
+whole fee to the closed one. -/
+theorem exact_close {i : Nat} (fs : List Trade) (f : Trade)
+    (h1 : OneInstrument i (fs ++ [f])) (h2 : PosQty (fs ++ [f]))
+    (hb : net fs ≠ 0) (ha : net (fs ++ [f]) = 0) :
+    ∃ p e, (runFills fs).pm.current = some p ∧
+      (runFills fs).pm.update f = ({ current := none }, some e) ∧
+      e.feesEnter = p.feesEnter ∧ e.feesExit = p.feesExit + f.fees := by
+  have h := inv_runFills fs (fun x hx => h1 x (by simp [hx])) (fun x hx => h2 x (by simp [hx]))
+  have hn : net (fs ++ [f]) = net fs + signedQty f := by simp [net, Rat.add_zero]
+  have hs := h.signed
+  rw [pm_signed_eq] at hs
+  cases hc : (runFills fs).pm.current with
+  | none => exfalso; rw [hc] at hs; exact hb hs.symm
+  | some p =>
+    rw [hc] at hs; simp only [optSigned] at hs
+    rw [hn, ← hs] at ha
+    obtain ⟨e, hu, rest⟩ := update_close (h.wf p hc) (h1 f (by simp)) (h2 f (by simp)) ha
+    refine ⟨p, e, rfl, ?_, rest⟩
+    simp [PositionManager.update, hc, hu]
+
+/-- (2d) a fill arriving at net zero opens a position from that fill alone (whole fee as entry
+fee) and returns no record. -/
+theorem opening_fill {i : Nat} (fs : List Trade) (f : Trade) (h1 : OneInstrument i fs)
+    (h2 : PosQty fs) (hb : net fs = 0) :
+    (runFills fs).pm.update f = ({ current := some (Position.ofTrade f) }, none) := by
+  have hc := ((size_is_net fs h1 h2).2.2.1).mpr hb
+  simp [PositionManager.update, hc]
+
+/-- (3) `conservation`: realised PnL summed over all closed-position records plus the open
+position's realised PnL = total sell proceeds − total buy cost − all fees + the open (signed)
+quantity valued at its average entry price. Exact in ℚ. -/
+theorem conservation {i : Nat} (fs : List Trade) (h1 : OneInstrument i fs) (h2 : PosQty fs) :
+    (runFills fs).pnlRealised = cash fs + (runFills fs).pm.openValue := by
+  have := (inv_runFills fs h1 h2).cons
+  grind
+
+/-- (4) `fees_conserved`: entry plus exit fees over all positions (closed records and the open
+one) equal the fees of the fills. -/
+theorem fees_conserved {i : Nat} (fs : List Trade) (h1 : OneInstrument i fs) (h2 : PosQty fs) :
+    (runFills fs).fees = feeSum fs :=
+  (inv_runFills fs h1 h2).fees
+
+/-- (5) `trade_ids`: the id of fill `f` is recorded in the position left open by `f` (if any) and
+in the closed-position record `f` produced (if any) — i.e. against every position it affected (on
+a crossing fill: both). -/
+theorem trade_ids {i : Nat} (fs : List Trade) (f : Trade) (h1 : OneInstrument i (fs ++ [f]))
+    (h2 : PosQty (fs ++ [f])) :
+    (∀ p', ((runFills fs).pm.update f).1.current = some p' → f.id ∈ p'.trades) ∧
+    (∀ e, ((runFills fs).pm.update f).2 = some e → f.id ∈ e.trades) := by
+  have h1' : OneInstrument i fs := fun x hx => h1 x (by simp [hx])
+  have h2' : PosQty fs := fun x hx => h2 x (by simp [hx])
+  have h := inv_runFills fs h1' h2'
+  have hl := life_runFills fs h1' h2'
+  have hf1 := h1 f (by simp)
+  have hf2 := h2 f (by simp)
+  have ⟨a, b⟩ := pm_update_life h.wf hl hf1 hf2
+  constructor
+  · intro p' hp'
+    unfold PMLife at a; rw [hp'] at a
+    rw [a.ids]
+    have hne : ((life fs).step f).net ≠ 0 := by
+      rw [← a.net]; exact signed_ne_zero (pm_update_wf h.wf hf1 hf2 p' hp')
+    rw [Life.step_net] at hne
+    by_cases hA : (life fs).net = 0 ∨ Crosses (life fs).net ((life fs).net + signedQty f)
+    · simp [Life.step, hA]
+    · simp [Life.step, hA, hne]
+  · intro e he
+    obtain ⟨p, _, ht, _⟩ := b e he
+    rw [ht]; simp
+
+/-- (5b) exact form: the open position's `trades` are exactly the ids of the fills since the one
+that opened it (`life fs`, from the history alone), oldest first; the record produced by `f` carries
+those ids followed by `f`'s. Together with (6). -/
+theorem position_life {i : Nat} (fs : List Trade) (h1 : OneInstrument i fs) (h2 : PosQty fs) :
+    ∀ p, (runFills fs).pm.current = some p →
+      p.trades = (life fs).ids ∧ p.quantityAbsMax = (life fs).maxAbs ∧
+      p.timeEnter = (life fs).timeEnter ∧
+      0 < p.quantityAbs ∧ p.quantityAbs ≤ p.quantityAbsMax := by
+  intro p hc
+  have hl := life_runFills fs h1 h2
+  have hw := (inv_runFills fs h1 h2).wf p hc
+  unfold PMLife at hl; rw [hc] at hl
+  exact ⟨hl.ids, hl.mx, hl.te, hw.pos, hw.le⟩
+
+/-- (6) `max_qty`: `(life fs).maxAbs` is the maximum of `|net|` over the prefixes of the history
+since the open position was opened: it is `|net|` at the opening fill, never decreases while the
+position lives, and is at least the current `|net|`. With `position_life`
+(`quantity_abs_max = (life fs).maxAbs`, `0 < quantity_abs ≤ quantity_abs_max`) this is the
+`quantity_abs_max` clause, and it discharges the division guard of
+`approximate_remaining_exit_fees`. (Pure statement about the spec function.) -/
+theorem life_maxAbs_is_running_max (l : Life) (f : Trade) :
+    let a := l.net + signedQty f
+    ((l.net = 0 ∨ Crosses l.net a) → (l.step f).maxAbs = abs a) ∧
+    (¬(l.net = 0 ∨ Crosses l.net a) → a ≠ 0 →
+      (l.step f).maxAbs = (if abs a > l.maxAbs then abs a else l.maxAbs) ∧
+      l.maxAbs ≤ (l.step f).maxAbs ∧ abs a ≤ (l.step f).maxAbs) := by
+  simp only [Life.step]
+  constructor
+  · intro h; simp [h]
+  · intro h ha; simp only [h, ha, if_false]
+    refine ⟨trivial, ?_, ?_⟩ <;> split <;> grind
+
+/-- The record produced by fill `f` after history `fs` describes the position that was open:
+its ids are the life's ids plus `f`'s, its `quantity_abs_max`, entry time, side and average entry
+price are those of the open position, its exit time is `f`'s time. -/
+theorem exit_record {i : Nat} (fs : List Trade) (f : Trade) (h1 : OneInstrument i (fs ++ [f]))
+    (h2 : PosQty (fs ++ [f])) :
+    ∀ e, ((runFills fs).pm.update f).2 = some e →
+      ∃ p, (runFills fs).pm.current = some p ∧
+        e.trades = (life fs).ids ++ [f.id] ∧ e.quantityAbsMax = (life fs).maxAbs ∧
+        e.timeEnter = (life fs).timeEnter ∧ e.timeExit = f.time ∧ e.side = p.side ∧
+        e.instrument = p.instrument ∧ e.priceEntryAverage = p.priceEntryAverage := by
+  have h1' : OneInstrument i fs := fun x hx => h1 x (by simp [hx])
+  have h2' : PosQty fs := fun x hx => h2 x (by simp [hx])
+  exact (pm_update_life (inv_runFills fs h1' h2').wf (life_runFills fs h1' h2')
+    (h1 f (by simp)) (h2 f (by simp))).2
+
+/-- Instrument-mismatch arm: a fill for another instrument changes nothing and returns nothing. -/
+theorem mismatch_ignored (p : Position) (t : Trade) (h : p.instrument ≠ t.instrument) :
+    p.updateFromTrade t = (some p, none) :=
+  update_mismatch p t h
+
+/-- Engine routing: after any interleaved fill list, instrument `i`'s position manager and exit
+records are exactly those of its own fills alone — so every theorem above holds per instrument of
+the engine (`OneInstrument i (fs.filter …)` holds by construction, see `oneInstrument_filter`). -/
+theorem engine_routes_per_instrument (n : Nat) (fs : List Trade) (i : Nat) (hi : i < n) :
+    (Instruments.run (Instruments.init n) fs)[i]? =
+      some (runFills (fs.filter (fun f => f.instrument = i))) := by
+  have := instruments_run_get fs (Instruments.init n) i Run.init
+    (by simp [Instruments.init, hi])
+  simpa [runFills] using this
+
+theorem oneInstrument_filter (fs : List Trade) (i : Nat) :
+    OneInstrument i (fs.filter (fun f => f.instrument = i)) := by
+  intro f hf; simpa using (List.mem_filter.mp hf).2
+
+/-- Conservation per engine instrument, for interleaved fills on any number of instruments. -/
+theorem engine_conservation (n : Nat) (fs : List Trade) (h2 : PosQty fs) (i : Nat) (hi : i < n) :
+    ∃ r, (Instruments.run (Instruments.init n) fs)[i]? = some r ∧
+      r.pm.signedQty = net (fs.filter (fun f => f.instrument = i)) ∧
+      r.pnlRealised = cash (fs.filter (fun f => f.instrument = i)) + r.pm.openValue ∧
+      r.fees = feeSum (fs.filter (fun f => f.instrument = i)) := by
+  have hq : PosQty (fs.filter (fun f => f.instrument = i)) :=
+    fun f hf => h2 f (List.mem_filter.mp hf).1
+  exact ⟨_, engine_routes_per_instrument n fs i hi,
+    (size_is_net _ (oneInstrument_filter fs i) hq).1,
+    conservation _ (oneInstrument_filter fs i) hq,
+    fees_conserved _ (oneInstrument_filter fs i) hq⟩
+
+/-! ## Non-vacuity
+
+A concrete history on instrument 0 with an increase, a partial reduction, an increase after the
+reduction, a flip, a second flip and an exact close: the hypotheses hold, two-sided conclusions are
+exercised (exits emitted and not emitted; crossing and non-crossing). -/
+
+def exFills : List Trade :=
+  [ ⟨1, 0, 0, .buy, 100, 2, 1⟩, ⟨2, 0, 1, .buy, 110, 1, 1⟩, ⟨3, 0, 2, .sell, 120, 1, 2⟩,
+    ⟨4, 0, 3, .buy, 90, 2, 0⟩, ⟨5, 0, 4, .sell, 130, 6, 3⟩, ⟨6, 0, 5, .buy, 100, 5, 5⟩,
+    ⟨7, 0, 6, .sell, 105, 3, 1⟩ ]
+
+example : OneInstrument 0 exFills := by decide +kernel
+example : PosQty exFills := by decide +kernel
+example : net exFills = 0 := by decide +kernel
+example : (runFills exFills).exits.length = 3 ∧ zeroTouches 0 exFills = 3 := by decide +kernel
+example : (runFills exFills).pm.current = none := by decide +kernel
+example : Crosses (net (exFills.take 4)) (net (exFills.take 5)) := by decide +kernel
+example : ¬ ReachesOrCrossesZero (net (exFills.take 2)) (net (exFills.take 3)) := by decide +kernel
+example : (runFills (exFills.take 6)).pm.side = some .buy ∧
+    (runFills (exFills.take 6)).pm.signedQty = 3 := by decide +kernel
+example : (life (exFills.take 4)).ids = [1, 2, 3, 4] ∧ (life (exFills.take 4)).maxAbs = 4 := by decide +kernel
 
 end BarterModel.Props.C02
